@@ -8,6 +8,14 @@
 // recording encoder with a failure budget).  Every case is written as a Coq term for
 // Model/AuditProcCheck.v (the results of auparse / aucoalesce on the generated lines are inputs
 // of the model) and judged by an oracle computed from the generated stream alone.
+//
+// Further stages on the same real code (each a -mode of this binary, registered as an extra stage of the property):
+//
+//	backlog.go     (C15, part of the default run) the Audits channel buffered with the daemon's capacity, lines queued in batches
+//	frame.go       -mode frame      (C07) audit records bare / with terminator / through a real FIFO and the real ingesters, dense length sweep
+//	cancelfull.go  -mode cancelfull (C08) Read must return on cancellation / failure while producers keep the Audits channel non-empty
+//	conc.go        -mode conc       (C03) forced schedules between Read's loop goroutine and the parser goroutine, child process per case, -race
+//	realtime.go    -mode realtime   (C16) real-time staleness window
 package main
 
 import (
@@ -27,13 +35,15 @@ import (
 const ruleText = "audit streams rendered from the record shapes of processors/auditd/testdata: compound kernel events (SYSCALL [EXECVE] CWD PATH{1,2} PROCTITLE [EOE]; also EOE-only, PROCTITLE-only and unterminated ones) and single-record events (LOGIN, USER_*, CRED_*, SERVICE_START); blocks of 1-3 kernel events whose records are merged in a random order that keeps each event's own order; empty lines anywhere; " +
 	"level 1 modes: clean, badline (garbage / truncated header / no msg= / unknown type / non-numeric sequence / no type= at a random position), faults (the Auditor fails at 1-3 random call indices), after (After filter inside the stream), smallmax (maxInFlight 1-2: overflow eviction), unterminated (+Maintain calls), late (a record after its event's terminator), expiry (60ms timeout, 150ms pauses, Maintain), gaps (sequence gaps, later event with lower number); " +
 	"level 2 modes on Auditd.Read: clean, badline, writefail (budget k for every k below the session's event count, drawn at random), latelogin-writefail, writefail-once (exactly one write is rejected, at the session's first event half of the time; judged by the oracle only), badlogin (pid 0 / empty credential / nil source), badpid (LOGIN record whose pid is not a number); " +
+	"backlog modes (both levels, n/5 further cases + a sweep): the Audits channel is BUFFERED with the daemon's capacity and the lines are queued in batches - everything up to the first sync item before the parse loop / Read starts, later batches while the callback of a just-completed event is kept waiting (hold) - clean or with a malformed line at a random position; sweep: for a few streams the malformed line at EVERY position of the pre-queued backlog (oracle only); " +
 	"non-trivial = at least two events interleaved or a fault injected; distinct by the concrete item list"
 
 func main() {
 	out := flag.String("out", "", "output directory")
 	n := flag.Int("n", 150, "number of cases")
 	replay := flag.String("replay", "", "replay file")
-	mode := flag.String("mode", "", "realtime: the C16 real-time scenarios (about 135 s)")
+	mode := flag.String("mode", "", "realtime: the C16 real-time scenarios (about 135 s); frame: C07, audit records bare / framed / through a real FIFO; conc: C03, forced schedules through the real Auditd.Read; cancelfull: C08, cancellation while the Audits channel is kept full")
+	dense := flag.Bool("dense", false, "frame: every template at every length")
 	flag.Parse()
 	auditd.SetLogger(zap.NewNop().Sugar())
 	if msg := checkConstants(); msg != "" {
@@ -44,8 +54,21 @@ func main() {
 		os.Exit(doReplay(*replay))
 	}
 	seed := hutil.SeedFromEnv()
-	if *mode == "realtime" {
+	switch *mode {
+	case "realtime":
 		realtimeMain(*out, seed, 1)
+		return
+	case "frame":
+		frameMain(*out, seed, *n, *dense)
+		return
+	case "cancelfull":
+		cancelFullMain(*out, seed, *n)
+		return
+	case "conc":
+		concMain(*out, seed, *n)
+		return
+	case "conc-child":
+		concChildMain()
 		return
 	}
 	r := hutil.NewRand(seed ^ 0xC15)
@@ -65,6 +88,18 @@ func main() {
 		c.Debug = i%3 == 2
 		runCase(&c, sum, cases, i)
 	}
+	// the same on a buffered Audits channel with the daemon's capacity, lines queued in batches (backlog.go)
+	for j := 0; j < *n/5; j++ {
+		var c Case
+		if j%2 == 0 {
+			c = genL1Backlog(r, j/2)
+		} else {
+			c = genL2Backlog(r, j/2)
+		}
+		c.Debug = j%3 == 2
+		runCase(&c, sum, cases, *n+j)
+	}
+	backlogSweep(sum, r, 2+*n/300)
 	gatedChecks(sum, 6)
 	cases.Flush()
 	sum.CaseFiles = cases.Files
@@ -136,6 +171,9 @@ func runCase(c *Case, sum *hutil.Summary, cases *hutil.CaseFile, i int) {
 		if len(o.Lost) > 0 {
 			sum.Dist("l1_events_lost_reported")
 		}
+		if o.Holds > 0 {
+			sum.Dist("l1_backlog_queued_while_callback_held")
+		}
 		if o.ParseRes != "running" {
 			sum.Dist("l1_parse_error")
 		}
@@ -206,6 +244,9 @@ func doReplay(path string) int {
 			Case     *Case          `json:"case"`
 			Gated    *gatedScenario `json:"gated"`
 			Realtime *rtScenario    `json:"realtime"`
+			Frame    *frameReplay   `json:"frame"`
+			CancelF  *cfScenario    `json:"cancelfull"`
+			Conc     *concCase      `json:"conc"`
 		} `json:"replay"`
 	}
 	if err := json.Unmarshal(raw, &rp); err != nil {
@@ -214,6 +255,15 @@ func doReplay(path string) int {
 	}
 	if rp.Replay.Realtime != nil {
 		return replayRealtime(*rp.Replay.Realtime)
+	}
+	if rp.Replay.Frame != nil {
+		return replayFrame(*rp.Replay.Frame)
+	}
+	if rp.Replay.CancelF != nil {
+		return replayCancelFull(*rp.Replay.CancelF)
+	}
+	if rp.Replay.Conc != nil {
+		return replayConc(*rp.Replay.Conc)
 	}
 	if rp.Replay.Gated != nil {
 		key, what := runGated(*rp.Replay.Gated)
